@@ -211,3 +211,23 @@ func vNative() bool { return true }
 
 // vUF is only meaningful under the symbolic engine (contract stubs are not installed natively).
 func vUF(name string, args ...*big.Int) *big.Int { panic(vAssumeFailed{"vUF has no native meaning: " + name}) }
+
+var vAddrTable = []string{
+	"osmo1v3jhvun9vdjkjan9wgkk7mn995crqvp38ympak",
+	"osmo1v3jhvun9vdjkjan9wgkhgam095crqvpj898a40",
+	"osmo1damkuetj94skxcm0w4h8gtfsxqcrqvp3jzps3h",
+	"osmo1da6xsetj94skxcm0w4h8gtfsxqcrqvpjeu9g6y",
+}
+
+// vNondetAddr: an arbitrary account address string (one of four distinct valid addresses)
+func vNondetAddr(name string) string {
+	v := vLookup("addr:" + name)
+	if !vPresent("addr:" + name) {
+		return vAddrTable[0]
+	}
+	i := v.Int64() - 1000000
+	if i < 0 || i >= int64(len(vAddrTable)) {
+		panic(vAssumeFailed{"addr " + name})
+	}
+	return vAddrTable[i]
+}
